@@ -13,3 +13,5 @@ import Tumfl.Props.C04Faithful
 #print axioms Tumfl.Props.C12_nothing_left
 #print axioms Tumfl.Props.C12_ok_no_bad_require
 #print axioms Tumfl.Props.C04_faithful
+#print axioms Tumfl.Props.C12_error_designates
+#print axioms Tumfl.Props.C12_tree_is_files
